@@ -3,8 +3,11 @@ package main
 // DkgPhase: keyper/dkgphase/phase.go, translated statement by statement:
 //   NewConstantPhaseLength(l)          the four accumulated phase lengths as functions of l
 //   PhaseLength.GetPhaseAtHeight       the chain of `if height < eonStartHeight+plen.x { return puredkg.X }`
-// The generator refuses source it does not understand (other statements, other fields, other
-// result values).  int64 additions are translated as additions on Z (block heights and phase
+// Control flow that means the same is brought to that shape first (flattenFlow): a tagless
+// `switch` (cases in order, `default` last wherever it stands), `if ... else if ... else`,
+// nested blocks; locals bound to call-free expressions are inlined by the shared translator.
+// The generator refuses source it does not understand (other statements, fallthrough / break,
+// a switch with a tag or an init statement, other fields, other result values).  int64 additions are translated as additions on Z (block heights and phase
 // lengths are far below 2^63; stated as an assumption of C07).
 
 import (
@@ -117,7 +120,11 @@ func genDkgPhase(repo string) (string, error) {
 	for _, fn := range dkgPhaseFields {
 		t2.rename[recv+"."+fn] = fn
 	}
-	body := t2.stmts(gp.Body.List)
+	flat, ferr := flattenFlow(gp.Body.List)
+	if ferr != nil {
+		return "", fmt.Errorf("DkgPhase: GetPhaseAtHeight: %v", ferr)
+	}
+	body := t2.stmts(flat)
 	if t2.err != nil {
 		return "", fmt.Errorf("DkgPhase: GetPhaseAtHeight: %v", t2.err)
 	}
@@ -130,4 +137,94 @@ func genDkgPhase(repo string) (string, error) {
 	fmt.Fprintf(&sb, "Definition gen_get_phase_at_height (off dealing accusing apologizing height eon_start_height : Z) : phase :=\n  %s.\n\n", body)
 	sb.WriteString("Definition gen_phase_at (l height eon_start_height : Z) : phase :=\n  let '(off, dealing, accusing, apologizing) := gen_new_constant_phase_length l in\n  gen_get_phase_at_height off dealing accusing apologizing height eon_start_height.\n")
 	return sb.String(), nil
+}
+
+// flattenFlow rewrites a statement list into the shape tr.stmts reads: a sequence of
+// `if cond { ...; return }` without else, followed by the remaining statements.  The statements
+// after a conditional are appended to each of its branches (a branch that returns never reaches
+// them; one that falls through continues with them, as in Go).
+//   switch { case a, b: A; default: D; case c: C }; R   =>   if a || b { A; R }; if c { C; R }; D; R
+//   if a { A } else if b { B } else { C }; R             =>   if a { A; R }; if b { B; R }; C; R
+func flattenFlow(ss []ast.Stmt) ([]ast.Stmt, error) {
+	if len(ss) == 0 {
+		return nil, nil
+	}
+	rest, err := flattenFlow(ss[1:])
+	if err != nil {
+		return nil, err
+	}
+	join := func(a []ast.Stmt) ([]ast.Stmt, error) {
+		return flattenFlow(append(append([]ast.Stmt{}, a...), ss[1:]...))
+	}
+	switch s := ss[0].(type) {
+	case *ast.BlockStmt:
+		return join(s.List)
+	case *ast.IfStmt:
+		if s.Init != nil {
+			return nil, fmt.Errorf("if with an init statement")
+		}
+		body, err := join(s.Body.List)
+		if err != nil {
+			return nil, err
+		}
+		out := []ast.Stmt{&ast.IfStmt{If: s.If, Cond: s.Cond, Body: &ast.BlockStmt{List: body}}}
+		switch e := s.Else.(type) {
+		case nil:
+			return append(out, rest...), nil
+		case *ast.BlockStmt:
+			tail, err := join(e.List)
+			if err != nil {
+				return nil, err
+			}
+			return append(out, tail...), nil
+		case *ast.IfStmt:
+			tail, err := flattenFlow(append([]ast.Stmt{e}, ss[1:]...))
+			if err != nil {
+				return nil, err
+			}
+			return append(out, tail...), nil
+		}
+		return nil, fmt.Errorf("unsupported else branch %T", s.Else)
+	case *ast.SwitchStmt:
+		if s.Init != nil || s.Tag != nil {
+			return nil, fmt.Errorf("switch with a tag or an init statement")
+		}
+		var out []ast.Stmt
+		var def []ast.Stmt
+		seenDefault := false
+		for _, c := range s.Body.List {
+			cc, ok := c.(*ast.CaseClause)
+			if !ok {
+				return nil, fmt.Errorf("unsupported switch clause %T", c)
+			}
+			for _, b := range cc.Body {
+				if br, ok := b.(*ast.BranchStmt); ok {
+					return nil, fmt.Errorf("%s inside a switch", br.Tok)
+				}
+			}
+			if cc.List == nil {
+				if seenDefault {
+					return nil, fmt.Errorf("two default clauses")
+				}
+				seenDefault = true
+				def = cc.Body
+				continue
+			}
+			cond := cc.List[0]
+			for _, e := range cc.List[1:] {
+				cond = &ast.BinaryExpr{X: cond, Op: token.LOR, Y: e}
+			}
+			body, err := join(cc.Body)
+			if err != nil {
+				return nil, err
+			}
+			out = append(out, &ast.IfStmt{If: cc.Case, Cond: cond, Body: &ast.BlockStmt{List: body}})
+		}
+		tail, err := join(def)
+		if err != nil {
+			return nil, err
+		}
+		return append(out, tail...), nil
+	}
+	return append([]ast.Stmt{ss[0]}, rest...), nil
 }
